@@ -217,7 +217,7 @@ func runC13(c *Ctx, r *Rec) {
 		}
 		r.verdict("D1-capacity-at-birth", construct, c.pos(fd.Pos()), fmt.Sprintf("capacity >= number of values in the adopted list at the point of construction, on all integers (%d literal evaluations)", len(caps)), bad)
 	}
-	r.floor("D1-capacity-at-birth", 1)
+	r.floorSoft("D1-capacity-at-birth", "collection.stack/constructors", "no exported constructor reaches a literal of the stack type that sets the capacity and the list (built field by field, say)")
 	checkStorageOwned(c, r, "D1-storage-owned", info, stk, cls, storage)
 
 	// ---- D1c nobody creates a stack and pushes more values on it than the capacity it was given
